@@ -2,9 +2,9 @@
 
 CHECK = {
     "harnesses": [
-        {"exe": "c20_stats", "flavour": "plain", "cases": (400000, 20000000), "procs": (8, 14), "subs": ["percentile", "histogram"]},
+        {"exe": "c20_stats", "flavour": "plain", "cases": (1200000, 20000000), "procs": (8, 14), "subs": ["percentile", "histogram"]},
     ],
-    "fuzzers": [{"exe": "fz_stats", "runs": (400000, 40000000), "max_len": 256, "jobs": (4, 12)}],
+    "fuzzers": [{"exe": "fz_stats", "runs": (800000, 40000000), "max_len": 256, "jobs": (4, 12)}],
     "min_nontrivial": (1000, 10000),
     "rule": ("rapidcheck-generated lists of 1..500 integers/reals (ties, negatives) x 6 percentages (k/8 grid, reals, positions integral "
              "up to rounding) and histograms in 6 construction modes x 12+ query values; oracle = sorted-array reference with the exact "
